@@ -15,7 +15,8 @@ func init() {
 		Decided: "C13.1 an overwrite of an existing target is dominated by CheckIncoming(stored, incoming)=nil with stored = the wrapper's own Get of the incoming item's target; a first write only under 'item not found'; " +
 			"C13.2 the 302 return is guarded by stored.Seq ≥ incoming.Seq (equal seq ∧ equal value refreshes), the 301 return by incoming.Cas ≠ stored.Seq, and the CAS test may be skipped only when the incoming put carries no cas; " +
 			"C13.3 the wrapper's compound store operations (Get→Put, Get→Del) run inside one critical section of a wrapper-owned mutex; " +
-			"C13.4 Wrapper.Get returns an item only if created+exp is after now; created is stamped before each store and nowhere else; a get naming seq is sent v/k/sig only when the stored seq is newer.",
+			"C13.4 Wrapper.Get returns an item only if created+exp is after now; created is stamped before each store and nowhere else; a get naming seq is sent v/k/sig only when the stored seq is newer; " +
+			"C13.6 the configured raw Store flows only into NewWrapper and its Get/Put/Del are invoked only inside the wrapper, so every served item passed the expiry test and every stored one the version test.",
 		NotDecided: "linearizability of real histories against arbitrary Store implementations (the Store is an opaque hook); 301 vs 302 precedence; '>' vs '≥' (value level).",
 		Rules: []*Rule{
 			{ID: "C13.1", Doc: "overwrite is gated by CheckIncoming", Floor: 1, Run: c13r1},
@@ -23,6 +24,7 @@ func init() {
 			{ID: "C13.3", Doc: "compound store operations are atomic", Floor: 3, Run: c13r3},
 			{ID: "C13.4", Doc: "expiry and conditional get", Floor: 5, Run: c13r4},
 			{ID: "C13.5", Doc: "an inbound put hands seq and cas of the request to the store unchanged", Floor: 2, Run: c13r5},
+			{ID: "C13.6", Doc: "nothing is served or stored past the wrapper: the raw store is reachable only through it", Floor: 3, Run: c13r6},
 		},
 	})
 }
@@ -269,4 +271,28 @@ func c13r5(w *World, rr *RuleRun) {
 	rr.Oblige(shortFuncName(h.fn), "the stored item's seq is the request's seq", w.P.Pos(h.fn.Pos()), lit["Seq"] != nil && seq.Op == OpDeref && isFieldTerm(seq.Args[0], argsSeq), "Seq ← "+trunc(seq.String(), 100))
 	cas := w.TS.Of(lit["Cas"])
 	rr.Oblige(shortFuncName(h.fn), "the stored item's cas is the request's cas", w.P.Pos(h.fn.Pos()), lit["Cas"] != nil && isFieldTerm(cas, argsCas), "Cas ← "+trunc(cas.String(), 100))
+}
+
+// c13r6: expiry and version checks live in the wrapper; they hold for the server only if the raw
+// store cannot be reached around it.
+func c13r6(w *World, rr *RuleRun) {
+	a := w.bep44()
+	w.checkRawStoreFlow(rr)
+	for _, m := range []struct {
+		f    *types.Func
+		name string
+	}{{a.sGet, "Get"}, {a.sPut, "Put"}, {a.sDel, "Del"}} {
+		n := 0
+		for _, site := range w.AllCallsTo(w.P.LibFuncs, m.f) {
+			if !callInstrCommon(site).IsInvoke() {
+				continue
+			}
+			n++
+			ok := w.withinUp(site.Parent(), a.wGet) || w.withinUp(site.Parent(), a.wPut)
+			rr.At(w, site, "raw Store."+m.name+" invoked only inside the Wrapper", ok, "in "+shortFuncName(site.Parent()))
+		}
+		if n == 0 {
+			rr.ObligeTrivial("(library)", "raw Store."+m.name+" invoked only inside the Wrapper", "-", true, "no invocation")
+		}
+	}
 }
